@@ -499,3 +499,7 @@ func Dialed() string { return "" }
 
 // LiveThreads: goroutines other than the caller that have not finished (engine; -1 natively).
 func LiveThreads() int { return -1 }
+
+// LogLeaks reports whether any line that reached a logging sink contains the
+// needle (engine only; natively the harness inspects its own log writer).
+func LogLeaks(needle string) bool { return false }
